@@ -49,3 +49,15 @@ def text_node_contract(node, addr, table, text):
     after = node.pc_after(addr)
     check("occupies_emitted_length", after.physical == addr.physical + n)
     check("emission_repeatable", node.emit(addr) == b1)
+
+
+def table_node_contract(resolver, inner, outer, outer_table):
+    """`.table` loads the table INTO THE SCOPE IT IS WRITTEN IN -- a block, a named scope, a loop iteration, a macro application alike -- and leaves the
+    enclosing scope's table alone (so text after the construct still uses the enclosing table: "nested scopes use the enclosing scope's table unless they
+    load their own")."""
+    from a816.parse.nodes import TableNode
+    from script import Table
+    n = TableNode("font.tbl", resolver)
+    check("loaded_into_the_current_scope", isinstance(inner.table, Table) and inner.table is not outer_table)
+    check("enclosing_scope_keeps_its_table", outer.table is outer_table)
+    check("scope_unchanged", resolver.current_scope is inner)
